@@ -17,6 +17,7 @@ package main
 
 import (
 	"math"
+	"math/big"
 	"strings"
 
 	"github.com/golang/geo/r3"
@@ -542,6 +543,10 @@ func genC02(g *G) {
 			rr = 0
 		}
 		g.emit("c02cmpr", append(ptArgs(x, y), fx(rr))...)
+		if it%8 == 3 { // limits beyond 90 degrees with nearly antipodal points (finding D54)
+			ox, oy, orr := g.c02Obtuse()
+			g.emit("c02cmpr", append(ptArgs(ox, oy), fx(orr))...)
+		}
 
 		// ---- sign of a dot product (|v|^2 <= 2 allowed)
 		sa, sb := g.c02Unit(), g.c02Unit()
@@ -567,6 +572,92 @@ func genC02(g *G) {
 		}
 		g.emit("c02sdp", ptArgs(sa, sb)...)
 	}
+}
+
+// ---- limits beyond 90 degrees (r2 in (2, 4]) with nearly antipodal points: finding D54 -----------------------
+//
+// `triageCompareCosDistance` computed cosRError = 2*dblError*cosR without math.Abs: for r2 > 2 the bound SHRANK by
+// 2u|cos r| (u = 2^-53).  It is decisive only when both points have norms at the upper end of what Normalize
+// can produce (1 + 3.6u) or, for merely IsUnit points, when fl(x.x) = 1 + 10u.  Three sub-families, all in
+// contract (exact | |p|^2 - 1 | <= 8.25u is CHECKED with big.Rat, so the repaired code is provably exact on them):
+//   (a) c02D54Seeds: pairs of PointFromCoords INPUTS for which all ten roundings of Normalize go the same way
+//       (found by a constructive search, floaterr3/search): x = PFC(v), y = PFC(-w1, -w2, +w3), limit 4 - k*2^-51;
+//   (b) x = (sh+i ulp, sh+j ulp, sqrt(q u)), sh = fl(sqrt(1/2)), i, j in 0..4, q in [0.9, 1.5], y = -x (exactly
+//       antipodal: the exact answer for r2 = 4 is 0), limit 4 or a few ulps below;
+//   (c) generic: x a Normalize output, y = Normalize(-x + tiny offset), limit = computed squared chord +- 3 ulps,
+//       clamped into (2, 4].
+var c02D54Seeds = [][7]uint64{
+	{0x3ff6a4f62b3d0ab0, 0x3ff6a2111555ab8e, 0x3e56839537fece62, 0x3ff6a4f62b996aad, 0x3ff6a21113f683f3, 0x3e56839537fece62, 0x400fffffffffffff}, // N1
+	{0x3ff6a4f62b77fce4, 0x3ff6a21114513799, 0x3e56839537fece62, 0x3ff6a4f62ac66c81, 0x3ff6a2111622e129, 0x3e56839537fece62, 0x400fffffffffffff}, // N2
+	{0x3ff6a4f62b8c3596, 0x3ff6a21115063428, 0x3e6945dd74b364f3, 0x3ff6a4f62abb07cd, 0x3ff6a211164c28de, 0x3e6945dd74b364f3, 0x400ffffffffffffb}, // N3
+	{0x3ff6a4f62b2d2945, 0x3ff6a2111582d5a5, 0x3e6945dd74b364f3, 0x3ff6a4f62baa1189, 0x3ff6a21113e59896, 0x3e6945dd74b364f3, 0x400ffffffffffffb},
+	{0x3ff6a4f62b458347, 0x3ff6a21115c100d1, 0x3e6945dd74b364f3, 0x3ff6a4f62bb84a0e, 0x3ff6a211142dfca5, 0x3e6945dd74b364f3, 0x400ffffffffffffb},
+	{0x3ff6a4f62ba5f4ac, 0x3ff6a2111496dcb6, 0x3e6945dd74b364f3, 0x3ff6a4f62aad9795, 0x3ff6a211161fbe5b, 0x3e6945dd74b364f3, 0x400ffffffffffffb},
+	{0x3ff6a4f62ab87b49, 0x3ff6a21116319b46, 0x3e56839537fece62, 0x3ff6a4f62b9f000d, 0x3ff6a21115111c93, 0x3e56839537fece62, 0x400fffffffffffff},
+	{0x3ff6a4f62ab36deb, 0x3ff6a21115a65a9a, 0x3e56839537fece62, 0x3ff6a4f62bbadf78, 0x3ff6a21114bb5d19, 0x3e56839537fece62, 0x400fffffffffffff},
+	{0x3ff6a4f62bc36689, 0x3ff6a21114230b0f, 0x3e56839537fece62, 0x3ff6a4f62b4f9cca, 0x3ff6a211155facd2, 0x3e56839537fece62, 0x400fffffffffffff},
+	{0x3ff6a4f62bcba7fc, 0x3ff6a21113e0ec04, 0x3e56839537fece62, 0x3ff6a4f62b90e2d9, 0x3ff6a21115595a57, 0x3e56839537fece62, 0x400fffffffffffff},
+	{0x3ff6a4f62bbdbeb2, 0x3ff6a21113ef9e32, 0x3e56839537fece62, 0x3ff6a4f62af100bd, 0x3ff6a21114f4c4b3, 0x3e56839537fece62, 0x400fffffffffffff},
+}
+
+// c02NormedExact reports | |p|^2 - 1 | <= 33/2^55 (= 8.25 * 2^-53) for the EXACT squared norm.
+func c02NormedExact(p s2.Point) bool {
+	n2 := new(big.Rat)
+	for _, c := range []float64{p.X, p.Y, p.Z} {
+		if math.IsInf(c, 0) || math.IsNaN(c) {
+			return false
+		}
+		q := new(big.Rat).SetFloat64(c)
+		n2.Add(n2, q.Mul(q, q))
+	}
+	n2.Sub(n2, big.NewRat(1, 1))
+	n2.Abs(n2)
+	lim := new(big.Rat).SetFrac(big.NewInt(33), new(big.Int).Lsh(big.NewInt(1), 55))
+	return n2.Cmp(lim) <= 0
+}
+
+func (g *G) c02Obtuse() (x, y s2.Point, r2 float64) {
+	r := g.rng
+	f := math.Float64frombits
+	for try := 0; try < 8; try++ {
+		switch r.Intn(4) {
+		case 0, 1: // (a) seeds, mixed with each other, limit a few ulps around the seed's limit
+			s, t := c02D54Seeds[r.Intn(len(c02D54Seeds))], c02D54Seeds[r.Intn(len(c02D54Seeds))]
+			if r.Intn(2) == 0 {
+				t = s
+			}
+			x = s2.PointFromCoords(f(s[0]), f(s[1]), f(s[2]))
+			y = s2.PointFromCoords(-f(t[3]), -f(t[4]), f(t[5]))
+			r2 = ulps(f(s[6]), r.Intn(5)-3)
+			if r.Intn(6) == 0 {
+				x, y = y, x
+			}
+		case 2: // (b) exactly antipodal IsUnit points whose float squared norm is up to 1 + 10u
+			sh := math.Sqrt(0.5)
+			q := 0.9 + 0.6*r.Float()
+			x = rawPt(ulps(sh, r.Intn(5)), ulps(sh, r.Intn(5)), math.Sqrt(q*math.Ldexp(1, -53)))
+			x = permAxes(x, r.Intn(6), r.Intn(8))
+			y = rawPt(-x.X, -x.Y, -x.Z)
+			r2 = ulps(4, -[]int{0, 0, 0, 1, 2, 5}[r.Intn(6)])
+		default: // (c) generic nearly antipodal Normalize outputs, limit at the computed squared chord +- 3 ulps
+			x = g.c02Unit()
+			e := math.Ldexp(r.Float(), -[]int{8, 20, 26, 27, 40, 52}[r.Intn(6)])
+			o := ortho(x)
+			y = norm(-x.X+e*o.X, -x.Y+e*o.Y, -x.Z+e*o.Z)
+			r2 = ulps(x.Sub(y.Vector).Norm2(), r.Intn(7)-3)
+		}
+		if r2 > 4 {
+			r2 = 4
+		}
+		if r2 <= 2 {
+			r2 = ulps(2, 1+r.Intn(3))
+		}
+		if c02NormedExact(x) && c02NormedExact(y) {
+			return
+		}
+	}
+	// fall back to an axis pair (always in contract)
+	return rawPt(1, 0, 0), rawPt(-1, 0, 0), 4
 }
 
 // tinyK returns an exponent k in [30, 1074]: (1, u 2^-k, v 2^-k) with |u|,|v| <= 8 is unit length to within 2^-53,
